@@ -2,7 +2,7 @@
    for bool, option, unit, prod, list, sumbool, sumor; N, Z, positive, nat stay extracted datatypes.
    No Extract Constant. *)
 From Coq Require Extraction ExtrOcamlBasic.
-From XetModel Require Import Gen.HashConsts Gen.ShardFacts Gen.XorbLayout Gen.DedupFacts Model.Chunker Model.Blake3 Model.Merkle Model.Shard Model.Xorb Model.Dedup Model.Cache Model.Crash Model.Singleflight Model.Reconstruct Gen.CacheFacts.
+From XetModel Require Import Gen.HashConsts Gen.ShardFacts Gen.XorbLayout Gen.DedupFacts Model.Chunker Model.Blake3 Model.Merkle Model.Shard Model.Xorb Model.Dedup Model.Cache Model.Crash Model.Singleflight Model.Reconstruct Model.Upload Gen.CacheFacts.
 Extraction Language OCaml.
 Extraction "model.ml"
   Chunker.chunker_new Chunker.run_calls Chunker.spec_chunks Chunker.st0
@@ -24,6 +24,7 @@ Extraction "model.ml"
   Cache.crc32 Cache.encode_file Cache.at_hook Cache.op_key Cache.key_dir Cache.item_name Cache.evict_ok
   Singleflight.sf_step Singleflight.sf_init Singleflight.sf_run
   Reconstruct.trim_term Reconstruct.seq_write Reconstruct.par_write
+  Upload.urun Upload.u_init Upload.finalize_join
   Crash.consolidate Crash.plan_effs Crash.apply_effs Crash.shard_name Crash.is_shard_final Crash.write_file
   DedupFacts.dedup_booked_before_decision DedupFacts.aggregated_xorb_registers_cas DedupFacts.metrics_snapshot_after_join
   DedupFacts.sha_of_empty_input_is_zero DedupFacts.MIN_N_CHUNKS_PER_RANGE_NUM DedupFacts.MIN_N_CHUNKS_PER_RANGE_DEN
